@@ -1,5 +1,6 @@
 import Dia.Exec
 import Dia.HistoryThm
+import Dia.StreamSeq
 /-! # C05 - Encoding never reports success for a frame it did not fully produce. Property theorems only.
 `Msg.enc` is the stream of octets the encoder hands to the writer and the first internal error (where the encoder
 stops); `encTo m k` runs it against a writer that accepts exactly `k` octets in total and then fails. -/
@@ -95,6 +96,15 @@ theorem C05_ok_is_complete (m : Msg) (k : Nat) (hg : m.Good) (h : (encTo m k).1 
   rw [hs.1] at h3
   simp only at h3
   omega
+
+/-- **the stream codec**: `Codec::encode` encodes into a buffer first, so for a message that cannot be represented
+nothing at all reaches the stream - not a truncated, wrapped or length-inconsistent frame - and the call fails -/
+theorem C05_codec_nothing_written (m : Msg) (w : List WEv) (h : m.repB = false) : Codec.encodeTo m w = (false, []) := by
+  have he := C05_range m h
+  unfold Codec.encodeTo
+  cases hx : m.enc.err with
+  | none => exact absurd hx he
+  | some e => rfl
 
 /-! non-vacuity: a Time in 2040 inside a group makes the encoder fail; the same message with the Time in range
 succeeds when the writer has room -/
